@@ -157,6 +157,29 @@ func init() {
 				b := prof.MutateOnePoint(c.R, a)
 				judgeEqual(c, jp.Equal, "", aT, prof.Respell(c.R, b, true), "one-point-difference")
 			}},
+			{Name: "names-that-differ-by-case-folding-or-normalisation", Count: n(10000, 300000), Run: func(c *core.Ctx, idx int) {
+				// the same members under two names each: equal exactly when the names are the same names
+				near := prof.With(func(p *gen.Profile) { p.Keys = gen.NearMissKeys })
+				ks := gen.NearMissKeys
+				k1, k2 := ks[c.R.Intn(len(ks))], ks[c.R.Intn(len(ks))]
+				if c.R.Intn(4) == 0 {
+					k2 = k1
+				}
+				v := near.Value(c.R, 1)
+				w := prof.Scalar(c.R)
+				mk := func(k string) string {
+					m := []string{gen.SpellString(c.R, k, gen.SpellRandom, false) + ":" + v, `"zz":` + w}
+					if c.R.Intn(2) == 0 {
+						m[0], m[1] = m[1], m[0]
+					}
+					return "{" + m[0] + "," + m[1] + "}"
+				}
+				aT, bT := mk(k1), mk(k2)
+				if c.R.Intn(3) == 0 {
+					aT, bT = "["+aT+"]", "["+bT+"]"
+				}
+				judgeEqual(c, jp.Equal, "", aT, bT, "near-miss-names")
+			}},
 			{Name: "null-shapes", Count: n(10000, 200000), Run: func(c *core.Ctx, idx int) {
 				vals := []string{`null`, ` null `, `[null]`, `[null,null]`, `[]`, `{}`, `{"a":null}`, `{"a":[null]}`, `{}`, `false`, `0`, `""`, `[[null]]`, `{"a":{"b":null}}`, `{"a":{}}`, `[null,1]`, `[1,null]`}
 				judgeEqual(c, jp.Equal, "", vals[c.R.Intn(len(vals))], vals[c.R.Intn(len(vals))], "null-shapes")
